@@ -6,7 +6,8 @@
     strategies_order supports_probe_agrees union_is_first_nonNone single_eq_generic
     forest_positional_differs true_pred_irrelevant self_prefix_irrelevant_partial
     simple_eq_generic_partial equivalent_spellings_agree self_prefix_irrelevant_nonpositional
-    dslash_is_descendant simple_eq_generic_kmp
+    dslash_is_descendant simple_eq_generic_kmp simple_eq_generic_fragments_partial
+    self_prefix_default_choice
 -/
 import Genshi.Model.Path
 import Genshi.Model.PathParse
@@ -17,6 +18,7 @@ import Genshi.Lemmas.PathSpelling
 import Genshi.Lemmas.PathSimple
 import Genshi.Lemmas.PathNonPos
 import Genshi.Lemmas.PathKmpRun
+import Genshi.Lemmas.PathFrags
 namespace Genshi.Props.C17
 open Genshi Genshi.Path
 
@@ -485,5 +487,122 @@ example : runTest (pathTest [childChain [.localName false ['a'], .localName fals
     (pathTest [childChain [.localName false ['a'], .localName false ['b']]] false (some .simple)).2
     (Node.elem ⟨[], ['r']⟩ [] [Node.elem ⟨[], ['a']⟩ [] [Node.elem ⟨[], ['b']⟩ [] []]]).flatten
     = [.none, .none, .bool true, .none, .none, .none] := by decide +kernel
+
+/-! ## SimplePathStrategy on paths with several fragments -/
+
+/-- **simple_eq_generic** for every fragment list (partial only in the spelling of the path).
+    Full statement: for every location path SimplePathStrategy supports, both modes, both
+    caller behaviours and every element tree, SimplePathStrategy reports event by event what
+    GenericStrategy reports.
+    Proved here: let `frags` be ANY list of fragments as `SimplePathStrategy.__init__` builds
+    them (`Frags.FragsOk`: any number of fragments; the first one bound to the context node
+    — `child::t1/…` or `self::t1/child::t2/…` — or empty when the path starts with
+    `descendant::` / `descendant-or-self::`; every further fragment entered through
+    `descendant::` or `descendant-or-self::`; name / `text()` / `comment()` tests; failure
+    tables computed by `calculate_pi`), and `Frags.normPath frags` the location path with
+    these fragments — so `a/descendant::b/c`, `descendant::a/descendant::b`,
+    `a/b/descendant-or-self::c/descendant::d/e`, `self::a/b/descendant::a/a/b`, … with any
+    number of `descendant::` hand-overs.  `__init__` maps that path back to `frags`
+    (`fragments_normPath`), and for the relative mode, both caller behaviours and every
+    element tree the two strategies agree at every event.
+
+    Proof (`Lemmas/PathFrags*.lean`): each entry `(fid, p, ic)` of Simple's stack is read
+    through the reference semantics (`ESem`: the rest of the bound fragment; or `SemIc` — the
+    fragment may start anywhere below, or one of the matched prefixes, `p` being the longest
+    (KMP: `kmpStep_max`), is continued); one matcher step keeps that reading (`visit`,
+    `icLoop_spec`).  When a fragment is completed the code moves to the next one and drops every
+    other candidate of the completed fragment: the DOMINATION lemma `semIc_dom` shows that
+    those candidates select nothing that the rest of the path does not select from the
+    completing node already (the rest starts with a descendant-like step, which is monotone
+    along the tree: `Mono`).  Hence Simple marks exactly `Ref.reach` (`simple_marks`), as
+    GenericStrategy does (`operand_nonpositional`), and equal marks mean equal results at
+    every event (`operands_agree`).
+
+    Missing for the full statement: spellings with an interior `self::` step (`a/self::a/b`,
+    merged or rejected by `__init__`), a final attribute step after a KMP fragment, the
+    pattern mode.  Hypotheses on the tree as in `equivalent_spellings_agree`. -/
+theorem simple_eq_generic_fragments_partial (frags : List Frag) (hok : Frags.FragsOk frags)
+    (ns : NsMap) (vs : Vars) (skip : Bool)
+    (tag : QName) (attrs : AttrList) (kids : List Node)
+    (hcl : (Node.elem tag attrs kids).clean = true)
+    (hn : AllNodes (NodeFor (Frags.normPath frags) ns vs) (.elem tag attrs kids)) :
+    traceCaller (pathTest [Frags.normPath frags] false (some .simple)).1 ns vs skip
+        (pathTest [Frags.normPath frags] false (some .simple)).2 (Node.elem tag attrs kids).flatten
+      = traceCaller (pathTest [Frags.normPath frags] false (some .generic)).1 ns vs skip
+        (pathTest [Frags.normPath frags] false (some .generic)).2 (Node.elem tag attrs kids).flatten := by
+  have hkcl : cleanList kids = true := by simpa [Node.clean] using hcl
+  simp only [traceCaller, pathTest, List.map_cons, List.map_nil, mkMatcher]
+  rw [operands_agree ns vs (toXVars vs) _ _ _ _ _ _ _
+    (Frags.operand_simple_frags ns vs frags hok tag attrs kids hkcl)
+    (operand_nonpositional _ ns vs (Frags.stepsOk_normPath ns vs frags hok) tag attrs kids hcl hn)
+    (fun _ => rfl)]
+
+/-- `a/descendant::b/c`: a bound fragment, then a KMP fragment -/
+def fragsABC : List Frag :=
+  [⟨[.localName false ['a']], [0], none, false⟩,
+   ⟨[.localName false ['b'], .localName false ['c']], [0, 0], none, false⟩]
+
+/-- `descendant::a/a/descendant-or-self::a/b`: two KMP fragments, the first one overlapping
+    itself (failure table `[0, 1]`), the second one entered on the node that completes the first -/
+def fragsAAB : List Frag :=
+  [⟨[], [], none, false⟩,
+   ⟨[.localName false ['a'], .localName false ['a']], [0, 1], none, false⟩,
+   ⟨[.localName false ['a'], .localName false ['b']], [0, 0], none, true⟩]
+
+-- non-vacuity: the hypotheses hold, the paths are what they should be, and there are matches
+example : Frags.FragsOk fragsABC := Frags.fragsOk_of_B _ (by decide)
+example : Frags.FragsOk fragsAAB := Frags.fragsOk_of_B _ (by decide)
+example : Frags.normPath fragsABC
+    = [⟨.child, .localName false ['a'], []⟩, ⟨.descendant, .localName false ['b'], []⟩,
+       ⟨.child, .localName false ['c'], []⟩] := by decide
+example : Frags.normPath fragsAAB
+    = [⟨.descendant, .localName false ['a'], []⟩, ⟨.child, .localName false ['a'], []⟩,
+       ⟨.descendantOrSelf, .localName false ['a'], []⟩, ⟨.child, .localName false ['b'], []⟩] := by decide
+-- `a/descendant::b/c` on <r><a><x><b><c/></b></x></a><b><c/></b></r>: only the first <c/>
+example : runTest (pathTest [Frags.normPath fragsABC] false (some .simple)).1 [] []
+    (pathTest [Frags.normPath fragsABC] false (some .simple)).2
+    (Node.elem ⟨[], ['r']⟩ [] [
+      Node.elem ⟨[], ['a']⟩ [] [Node.elem ⟨[], ['x']⟩ [] [Node.elem ⟨[], ['b']⟩ [] [Node.elem ⟨[], ['c']⟩ [] []]]],
+      Node.elem ⟨[], ['b']⟩ [] [Node.elem ⟨[], ['c']⟩ [] []]]).flatten
+    = [.none, .none, .none, .none, .bool true, .none, .none, .none, .none, .none, .none, .none, .none, .none] := by
+  decide +kernel
+-- `descendant::a/a/descendant-or-self::a/b` on <r><a><a><a><b/></a></a></a></r>: KMP falls back
+-- inside the first fragment, the second fragment starts on the completing node; the <b/> matches
+example : runTest (pathTest [Frags.normPath fragsAAB] false (some .simple)).1 [] []
+    (pathTest [Frags.normPath fragsAAB] false (some .simple)).2
+    (Node.elem ⟨[], ['r']⟩ [] [Node.elem ⟨[], ['a']⟩ [] [Node.elem ⟨[], ['a']⟩ [] [Node.elem ⟨[], ['a']⟩ []
+      [Node.elem ⟨[], ['b']⟩ [] []]]]]).flatten
+    = [.none, .none, .none, .none, .bool true, .none, .none, .none, .none, .none] := by decide +kernel
+
+/-- **`./p` and `p` with the strategies `Path.__init__` picks.**  For the path `p` of any
+    fragment list with two or more steps, `Path.__init__` hands `p` to SimplePathStrategy and
+    `./p` (its first step `self::node()` is not a supported test) to GenericStrategy — and the
+    two matchers report the same at every event: `self_prefix_irrelevant_nonpositional`
+    carried over the strategy choice by `simple_eq_generic_fragments_partial`. -/
+theorem self_prefix_default_choice (frags : List Frag) (hok : Frags.FragsOk frags)
+    (h2 : 2 ≤ (Frags.normPath frags).length)
+    (ns : NsMap) (vs : Vars) (skip : Bool)
+    (tag : QName) (attrs : AttrList) (kids : List Node)
+    (hcl : (Node.elem tag attrs kids).clean = true)
+    (hn : AllNodes (NodeFor (Frags.normPath frags) ns vs) (.elem tag attrs kids)) :
+    (chooseStrategy (dot :: Frags.normPath frags) = some .generic ∧
+     chooseStrategy (Frags.normPath frags) = some .simple) ∧
+    traceCaller (pathTest [dot :: Frags.normPath frags] false).1 ns vs skip
+        (pathTest [dot :: Frags.normPath frags] false).2 (Node.elem tag attrs kids).flatten
+      = traceCaller (pathTest [Frags.normPath frags] false).1 ns vs skip
+        (pathTest [Frags.normPath frags] false).2 (Node.elem tag attrs kids).flatten := by
+  have ho : strategyOrder = [.single, .simple, .generic] := by decide
+  have hc1 : chooseStrategy (dot :: Frags.normPath frags) = some .generic := by
+    have h1 : singleSupports (dot :: Frags.normPath frags) = false := by
+      unfold singleSupports; simp only [List.length_cons]; exact beq_false_of_ne (by omega)
+    have hs : simpleSupports (dot :: Frags.normPath frags) = false := by simp [simpleSupports, dot]
+    simp [chooseStrategy, ho, List.find?, Strategy.supports, h1, hs]
+  have hc2 := Frags.chooses_simple frags hok h2
+  refine ⟨⟨hc1, hc2⟩, ?_⟩
+  have e1 := self_prefix_irrelevant_nonpositional (Frags.normPath frags) ns vs
+    (Frags.stepsOk_normPath ns vs frags hok) tag attrs kids hcl hn skip
+  have e2 := simple_eq_generic_fragments_partial frags hok ns vs skip tag attrs kids hcl hn
+  simp only [pathTest, List.map_cons, List.map_nil, hc1, hc2, Option.getD_some] at e1 e2 ⊢
+  rw [e1, e2]
 
 end Genshi.Props.C17
